@@ -16,6 +16,8 @@ Pool ==
   CASE PoolName = "small" ->
          << <<<<40,97,41,124,98>>, <<>>, TRUE>>,                              \* (a)|b
             <<<<40,63,58,97,63,124,98,41,42,99>>, <<>>, TRUE>> >>             \* (?:a?|b)*c
+    [] PoolName = "zl" ->                                                      \* one object, stepped iterators interleaved with other calls
+         << <<<<40,97,98,124,99,41,123,48,44,50,125,100>>, <<>>, TRUE>> >>     \* (ab|c){0,2}d  a min-0 repeat reached at the same position twice
     [] PoolName = "wide" ->
          << <<<<40,97,41,124,98>>, <<>>, TRUE>>,                              \* (a)|b          capture arrays
             <<<<40,63,58,97,63,124,98,41,42,99>>, <<>>, TRUE>>,               \* (?:a?|b)*c     zero-length memo
@@ -29,7 +31,8 @@ Pool ==
             <<<<94,97>>, <<>>, FALSE>>,                                       \* ^a (xsd)        an anchor here, a literal ^ there
             <<<<97,42>>, <<>>, FALSE>>,                                       \* a* (xsd)       matches the empty string
             <<<<40>>, <<>>, TRUE>> >>                                         \* (              does not compile
-Inputs == << <<97,98>>, <<97,97,98,99>>, <<945,97,65,10,97>>, <<>>, <<98,94,97>>, <<66600,1064>> >>
+Inputs == IF PoolName = "zl" THEN << <<100,45,100,45,100>>, <<120,120,100>>, <<99,100,100>> >> ELSE
+          << <<97,98>>, <<97,97,98,99>>, <<945,97,65,10,97>>, <<>>, <<98,94,97>>, <<66600,1064>> >>
 Repls == << <<91,36,49,93>>, <<36>> >>                                        \* [$1] and an invalid one
 
 VARIABLE hist
